@@ -893,6 +893,9 @@ func (fr *frame) instr(ins ssa.Instruction, back map[[2]int]bool) {
 			if pt, ok := fa.X.Type().Underlying().(*types.Pointer); ok {
 				if st, ok := pt.Elem().Underlying().(*types.Struct); ok {
 					fr.quoteHook(x.Val, pt.Elem(), st.Field(fa.Field).Name(), v, x.Pos())
+					if n := namedOf(pt.Elem()); n != nil && n.Obj().Pkg() != nil && strings.HasSuffix(n.Obj().Pkg().Path(), "/internal/coq") {
+						fr.nameUse(v) // a string stored in a node of the output tree
+					}
 				}
 			}
 		}
@@ -1064,11 +1067,21 @@ func (fr *frame) setValRaw(v ssa.Value, r Val) { fr.vals[v] = r }
 // mentionHook (C04): converting a non-constant string to one of the coq name
 // types constructs a mention of a top-level name; the dependency must already
 // have been recorded in the current dependency tracker.
+// nameUse (C04): the string v goes into the output here
+func (fr *frame) nameUse(v Val) {
+	vc := fr.vc
+	if !vc.P.checkMentions || v.S == "" || v.T == nil || vc.sortOf(v.T) != sStr {
+		return
+	}
+	vc.nameUses = append(vc.nameUses, nameEvent{term: v.S, guard: fr.guard})
+}
+
 func (fr *frame) mentionHook(src ssa.Value, to types.Type, v Val, pos token.Pos) {
 	n, ok := types.Unalias(to).(*types.Named)
 	if !ok || n.Obj().Pkg() == nil || !strings.HasSuffix(n.Obj().Pkg().Path(), "/internal/coq") {
 		return
 	}
+	fr.nameUse(v)
 	switch n.Obj().Name() {
 	case "StructName":
 	case "TypeIdent", "GallinaIdent":
